@@ -156,11 +156,26 @@ def run(ctx):
         if r != want:
             env_bad.append("To/Cc/Bcc = %s/%s/%s (- absent, 0 empty list): %s, expected %s" % (sp + (r.replace("\t", " / "), want.replace("\t", " / "))))
     ctx.count(len(specs))
+    # accepted addresses on a sendmail command line: with and without a sender, recipients that begin with '-' must be read as operands by a
+    # program that follows the POSIX utility conventions (never as options)
+    sm_envs = [(fr, to) for fr in (None, b"s@example.com", b"-s@example.com") for to in ([b"-f@example.com"], [b"-bp@example.org", b"x@y.org"], [b"a@b.org", b"-oQ/tmp@x.org"], [b"--@example.com"], [b"-t@x.org", b"-i@x.org"])]
+    sm = run_impl(["transport.sendmail\tok\t%s\t%s\t%s" % ("!" if fr is None else hx(fr), "|".join(hx(t) for t in to), hx(b"m\r\n")) for fr, to in sm_envs])
+    ctx.count(len(sm_envs))
+    sm_ok = [k for k, r in enumerate(sm) if r.startswith("ok\t")]
+    sm_read = run_model(["spec.sendmail_reads\t" + sm[k].split("\t")[2] for k in sm_ok])
+    for k, r in zip(sm_ok, sm_read):
+        fr, to = sm_envs[k]
+        want = "some\t1\t%s;%s" % ("!" if fr is None else hx(fr), "|".join(hx(t) for t in to))
+        if r != want:
+            env_bad.append("sendmail command line for sender %r recipients %r is read as %s by a POSIX-conforming program (arguments %s)" % (fr, to, r, sm[k].split("\t")[2]))
+    for k, r in enumerate(sm):
+        if not r.startswith("ok\t"):
+            env_bad.append("sendmail harness: %s" % r[:100])
     ctx.cov["correspondence"] = {"addr.from_str": {"cases": len(strs), "exhaustive_alphabet": "a 1 @ \" \\ . [ ] < SP LF U+FF20", "exhaustive_maxlen": maxlen, "exhaustive_count": n_exh, "accepted": accepted, "disagreements": len(diffs)},
                                  "addr.new": {"cases": len(pairs), "disagreements": len(pdiff)}}
     ctx.cov["oracle"] = {"safety_and_rejoin_on_impl": {"accepted_checked": accepted, "failures": len(obad)},
                          "new_iff_parse_on_impl": {"pairs": len(pairs), "unexplained": len(iff_bad), "known_F15": f15},
-                         "serde_shapes": {"cases": len(ser), "failures": len(ser_bad)}, "envelope_nonempty": {"cases": 3 + len(specs), "failures": len(env_bad)},
+                         "serde_shapes": {"cases": len(ser), "failures": len(ser_bad)}, "envelope_nonempty_and_sendmail_operands": {"cases": 3 + len(specs) + len(sm_envs), "failures": len(env_bad)},
                          "oracle_hypotheses": {"alnum_exhaustive": al, "idna_ip_answers_checked": len(doms), "violations": len(hyp_bad)}}
     ctx.cov["exhaustive"] = True
     ctx.cov["rule"] = ("Address::from_str on all strings over a 12-symbol alphabet up to length %d plus boundary/IDNA/IP/quoted cases and seeded random strings; Address::new on all splits of strings over an 8-symbol alphabet up to length %d; "
